@@ -5,6 +5,37 @@ Require Import ZArith Lia Bool List.
 Require Import LV.Base.CInt LV.Proofs.C25_Bits LV.Proofs.C25_Rev64Bytes LV.Gen.Gen_bit_reversal.
 Local Open Scope Z_scope.
 
+(** ** Running the generated code without kernel backtracking
+
+    [monad_run] of [C25_Bits] steps with [cbn [obind]]; the proof term then carries a cast between
+    [obind (Some v) F] and the next [obind m' F'], which the kernel first tries to establish argument-wise
+    ([Some v] against [m'], i.e. a [rev 8 _] against a shift of [x]: both unfold to deep stuck matches on [x])
+    before it unfolds [obind].  With eight bytes that failed first attempt dominated the [Qed] of
+    [muldiv32_u64_is_rev] (15 minutes).  Here every step is an application of [obind_eq], whose instantiated
+    statement is the goal up to beta, so the kernel never has a failing comparison to back out of. *)
+
+Lemma obind_eq {A B} (m : option A) (a : A) (f : A -> option B) (r : option B) :
+  m = Some a -> f a = r -> obind m f = r.
+Proof. intros -> <-. reflexivity. Qed.
+
+(** One step: a shift by a legal literal count. *)
+Ltac mstep :=
+  lazymatch goal with
+  | |- obind (c_shr ?t ?a ?n) ?F = ?r =>
+      refine (obind_eq _ _ F r (c_shr_ok t a n eq_refl) _); cbv beta
+  | |- obind (c_shl ?t ?a ?n) ?F = ?r =>
+      refine (obind_eq _ _ F r (c_shl_u_ok t a n eq_refl eq_refl) _); cbv beta
+  end.
+
+(** One step: a call [f b] (or table access) with specification [H : forall b, side b -> f b = Some _];
+    [tac] proves the side condition. *)
+Ltac mcall H tac :=
+  lazymatch goal with
+  | |- obind (?f ?b) ?F = ?r => refine (obind_eq _ _ F r (H b _) _); [tac | cbv beta]
+  end.
+
+Ltac mrun H tac := repeat first [ mstep | mcall H tac ].
+
 (** ** SWAR stages *)
 
 (** [stage w m1 m2 s y]: the shape of one SWAR stage, [((y & m1) >> s) | ((y & m2) << s)] at width [w]. *)
@@ -89,10 +120,8 @@ Qed.
 
 Lemma swar_u64_is_rev x : 0 <= x < 2 ^ 64 -> swar_u64 x = Some (rev 64 x).
 Proof.
-  intros Hx. unfold swar_u64. rewrite !cast_u32.
-  rewrite swar_u32_is_rev by (apply mod_range; lia). monad_run.
-  rewrite swar_u32_is_rev by (apply mod_range; lia). monad_run.
-  f_equal. apply rev64_halves, Hx.
+  intros Hx. unfold swar_u64. mrun swar_u32_is_rev ltac:(apply mod_range; lia).
+  apply (f_equal Some). unfold c_or. rewrite !cast_u32. apply rev64_halves, Hx.
 Qed.
 
 (** ** Lookup table *)
@@ -123,19 +152,15 @@ Qed.
 Lemma lookup_u32_is_rev x : 0 <= x < 2 ^ 32 -> lookup_u32 x = Some (rev 32 x).
 Proof.
   intros Hx. unfold lookup_u32. unfold c_and.
-  rewrite lookup_table_spec by (apply (land_range _ 255 8); lia). monad_run.
-  rewrite lookup_table_spec by (apply (land_range _ 255 8); [lia|apply (shiftr_range _ _ 32); lia|lia]). monad_run.
-  rewrite lookup_table_spec by (apply (land_range _ 255 8); [lia|apply (shiftr_range _ _ 32); lia|lia]). monad_run.
-  rewrite lookup_table_spec by (apply (land_range _ 255 8); [lia|apply (shiftr_range _ _ 32); lia|lia]). monad_run.
-  f_equal. apply rev32_bytes, Hx.
+  mrun lookup_table_spec
+       ltac:(apply (land_range _ 255 8); [lia|first [apply (shiftr_range _ _ 32); lia|lia]|lia]).
+  apply (f_equal Some). apply rev32_bytes, Hx.
 Qed.
 
 Lemma lookup_u64_is_rev x : 0 <= x < 2 ^ 64 -> lookup_u64 x = Some (rev 64 x).
 Proof.
-  intros Hx. unfold lookup_u64. rewrite !cast_u32.
-  rewrite lookup_u32_is_rev by (apply mod_range; lia). monad_run.
-  rewrite lookup_u32_is_rev by (apply mod_range; lia). monad_run.
-  f_equal. apply rev64_halves, Hx.
+  intros Hx. unfold lookup_u64. mrun lookup_u32_is_rev ltac:(apply mod_range; lia).
+  apply (f_equal Some). unfold c_or. rewrite !cast_u32. apply rev64_halves, Hx.
 Qed.
 
 
@@ -176,32 +201,30 @@ Qed.
 (* [rev64_bytes_md] (64 bit positions x 8 bytes, the slowest enumeration) lives in LV.Proofs.C25_Rev64Bytes so that it
    compiles in parallel with this file. *)
 
-Ltac md_run spec :=
-  repeat first [ monad_step
-               | rewrite spec by (apply mod_range; lia) ].
+Ltac md_run spec := mrun spec ltac:(apply mod_range; lia).
 
 Lemma muldiv32_u32_is_rev x : 0 <= x < 2 ^ 32 -> muldiv32_u32 x = Some (rev 32 x).
 Proof.
-  intros Hx. unfold muldiv32_u32. rewrite !cast_u8. md_run muldiv32_byte_spec.
-  f_equal. apply rev32_bytes_md, Hx.
+  intros Hx. unfold muldiv32_u32. md_run muldiv32_byte_spec.
+  apply (f_equal Some). unfold c_or. rewrite !cast_u8. apply rev32_bytes_md, Hx.
 Qed.
 
 Lemma muldiv64_u32_is_rev x : 0 <= x < 2 ^ 32 -> muldiv64_u32 x = Some (rev 32 x).
 Proof.
-  intros Hx. unfold muldiv64_u32. rewrite !cast_u8. md_run muldiv64_byte_spec.
-  f_equal. apply rev32_bytes_md, Hx.
+  intros Hx. unfold muldiv64_u32. md_run muldiv64_byte_spec.
+  apply (f_equal Some). unfold c_or. rewrite !cast_u8. apply rev32_bytes_md, Hx.
 Qed.
 
 Lemma muldiv32_u64_is_rev x : 0 <= x < 2 ^ 64 -> muldiv32_u64 x = Some (rev 64 x).
 Proof.
-  intros Hx. unfold muldiv32_u64. rewrite !cast_u8. md_run muldiv32_byte_spec.
-  f_equal. apply rev64_bytes_md, Hx.
+  intros Hx. unfold muldiv32_u64. md_run muldiv32_byte_spec.
+  apply (f_equal Some). unfold c_or. rewrite !cast_u8. apply rev64_bytes_md, Hx.
 Qed.
 
 Lemma muldiv64_u64_is_rev x : 0 <= x < 2 ^ 64 -> muldiv64_u64 x = Some (rev 64 x).
 Proof.
-  intros Hx. unfold muldiv64_u64. rewrite !cast_u8. md_run muldiv64_byte_spec.
-  f_equal. apply rev64_bytes_md, Hx.
+  intros Hx. unfold muldiv64_u64. md_run muldiv64_byte_spec.
+  apply (f_equal Some). unfold c_or. rewrite !cast_u8. apply rev64_bytes_md, Hx.
 Qed.
 
 (** [muldiv::operator()] selects the 64-bit-architecture variant on this target. *)
